@@ -313,6 +313,56 @@ def standalone_bases(cx, rng, n):
         cx.add(min(p, 3), {'pts': [], 'events': evs, '_info': {'standalone': True, 'knots': lkn}})
 
 
+def bspline_states(cx, tier):
+    """spec/BSplineBasis.tla: every knot vector of P + 2 even lattice knots is one implementation test of class BSpline
+    (values, first derivative, integral against the exact rationals of the specification)"""
+    from sparseSpACE.BasisFunctions import BSpline
+    from numpy.polynomial import legendre
+    rep = cx.rep
+    L = 16
+    for P in (1, 2, 3, 5):
+        cfg = ('SPECIFICATION Spec\nCONSTANTS L = %d\n P = %d\nINVARIANT LocalSupport\nINVARIANT NonNegative\nINVARIANT DerivativeIsDerivative\nINVARIANT IntegralClosedForm\nCHECK_DEADLOCK FALSE\n' % (L, P))
+        r, g = tlc.run('BSplineBasis', cfg, 'c10b', dump=True, timeout=1800)
+        rep.tlc('BSplineBasis P=%d' % P, r)
+        if r.violated:
+            raise tlc.TLCError('BSplineBasis.tla violates %s' % r.violated)
+        if r.distinct < 30:
+            raise tlc.TLCError('vacuous: %d knot vectors' % r.distinct)
+        for st in g.states.values():
+            kn = list(st['knots'])
+            for sc, off in ((1.0, 0.0), (0.125, -1.0)) + (((3.0, 0.1),) if tier == 'thorough' else ()):
+                knots = np.array([off + sc * k for k in kn], dtype=float)
+                info = {'p': P, 'knots': knots.tolist(), 'lattice_knots': kn}
+                sig = {'api': 'BasisFunctions', 'kind': 'bspline', 'source': 'BSplineBasis.tla'}
+                rep.count(1, key=json.dumps(['bspline-state', P, kn, sc, off]))
+                try:
+                    b = BSpline(P, 0, knots)
+                    xs = list(range(0, L + 1))
+                    v = [float(b(off + sc * x)) for x in xs]
+                    d = [float(b.get_first_derivative(off + sc * x)) for x in xs]
+                    cg, ww = legendre.leggauss(int(P / 2) + 1)
+                    integ = float(b.get_integral(float(knots[0]), float(knots[-1]), cg, ww))
+                except Exception as ex:
+                    rep.violation('C10_NoException', dict(sig, exception=type(ex).__name__), dict(info, exception=repr(ex)), what='BSpline on %s raised %r' % (info, ex))
+                    continue
+                ev = [float(Fraction(*st['vals'][x])) for x in xs]
+                ed = [float(Fraction(*st['ders'][x])) / sc for x in xs]
+                same_vals = all(abs(a1 - b1) <= 1e-12 for a1, b1 in zip(v, ev))
+                if not same_vals:
+                    rep.drift('I_BSplineValues', '%s' % info)
+                    continue
+                dpts = [x for x in xs if P >= 2 or x not in kn]
+                badd = [x for x in dpts if abs(d[x] - ed[x]) > 1e-10 * max(1.0, abs(ed[x]))]
+                rep.residual('bspline_derivative_exact', not badd)
+                if badd:
+                    rep.violation('C10_DerivativeAgrees', dict(sig, order=1), dict(info, at=[off + sc * x for x in badd], derivative=[d[x] for x in badd], exact=[ed[x] for x in badd]),
+                                  what='BSpline p=%d knots %s: first derivative %s differs from the exact derivative %s of its own values' % (P, knots.tolist(), [d[x] for x in badd][:3], [ed[x] for x in badd][:3]))
+                exact_int = sc * (kn[-1] - kn[0]) / (P + 1)
+                rep.residual('bspline_integral_exact', abs(integ - exact_int) <= 1e-10 * max(1.0, exact_int))
+                if abs(integ - exact_int) > 1e-10 * max(1.0, exact_int):
+                    rep.violation('C10_IntegralAgrees', sig, dict(info, got=integ, exact=exact_int), what='BSpline p=%d knots %s: get_integral %r differs from the exact integral %r of its values' % (P, knots.tolist(), integ, exact_int))
+
+
 def run(tier, seed):
     rep = Report(PROP, tier, seed, 'exploration')
     rng = random.Random(seed)
@@ -368,6 +418,7 @@ def run(tier, seed):
                 for bnd, mod in ((True, False), (False, False), (False, True)):
                     local_grid_case(cx, kind, p, bnd, mod, lv, boxes[0])
     standalone_bases(cx, rng, 40 if tier == 'quick' else 400)
+    bspline_states(cx, tier)
     # ---- TLC judges the recorded (snapped) outputs
     for P, traces in sorted(cx.traces.items()):
         clean = [{'pts': t['pts'], 'events': [{k: v for k, v in e.items() if not k.startswith('_')} for e in t['events']]} for t in traces]
